@@ -14,3 +14,7 @@ mod tests;
 
 #[cfg(test)]
 pub(crate) use indexer::AsyncRichIndexer;
+
+/// Verification hooks.
+#[cfg(ckb_verif)]
+pub mod verif;
